@@ -834,10 +834,42 @@ fn run_typed<D: Dec>(req0: &[&str]) -> String {
         }
         ["try_le", _, b] => {
             let Some(b) = unhex(b) else { return "bad".into() };
-            guard(|| match D::try_le(&b) {
-                Some(Ok(d)) => format!("ok:{}", hex(&d.le())),
-                Some(Err(e)) => pans_err(&e, 0),
-                None => "skip".into(),
+            let one = |slice: &[u8]| {
+                guard(|| match D::try_le(slice) {
+                    Some(Ok(d)) => format!("ok:{}", hex(&d.le())),
+                    Some(Err(e)) => pans_err(&e, 0),
+                    None => "skip".into(),
+                })
+            };
+            let a0 = one(&b);
+            // the same bytes at the other three alignments of the slice's start address: the answer may depend on the
+            // length and the bytes only
+            if b.len() <= 4096 && a0 != "skip" {
+                for off in 1..4usize {
+                    let mut buf = vec![0xEEu8; off + 8];
+                    buf.truncate(off);
+                    buf.extend_from_slice(&b);
+                    let a = one(&buf[off..]);
+                    if a != a0 {
+                        return a;
+                    }
+                }
+            }
+            a0
+        }
+        // a slice given by its length and one fill byte (lengths that do not travel through the line protocol)
+        ["try_le_fill", _, len, byte] => {
+            let (Ok(len), Ok(byte)) = (len.parse::<usize>(), u8::from_str_radix(byte, 16)) else { return "bad".into() };
+            guard(|| {
+                let b = vec![byte; len];
+                match D::try_le(&b) {
+                    Some(Ok(d)) => {
+                        let le = d.le();
+                        format!("okfill {} {}", le.len(), if le == b { 1 } else { 0 })
+                    }
+                    Some(Err(e)) => pans_err(&e, 0),
+                    None => "skip".into(),
+                }
             })
         }
         ["consts", _] => guard(|| D::consts().unwrap_or_else(|| "skip".into())),
